@@ -25,6 +25,21 @@ SCHEMA = '/root/.vp/EVIDENCE.schema.json'
 SCHEMA_COPY = os.path.join(VERIF, 'vf', 'EVIDENCE.schema.json')
 
 
+
+def contract_module_docs(mods):
+    """[{module, states_and_abstracts}] read from the docstrings of vf/contracts/<module>.py (no import)."""
+    import ast as _ast
+    out = []
+    for m in mods:
+        path = os.path.join(os.path.dirname(os.path.abspath(__file__)), 'contracts', m + '.py')
+        try:
+            doc = _ast.get_docstring(_ast.parse(open(path).read())) or ''
+        except Exception:
+            doc = ''
+        out.append({'module': 'vf/contracts/%s.py' % m, 'states_and_abstracts': ' '.join(doc.split())[:3000]})
+    return out
+
+
 def load_known():
     p = os.path.join(VERIF, 'known_findings.json')
     if not os.path.exists(p):
@@ -230,6 +245,8 @@ def main(argv=None):
             'vacuity_checks': proof.get('vacuity', {}),
             'lemmas': proof.get('lemmas', []),
             'extraction_drops': proof.get('drops', []),
+            # what each contract module abstracts (its own statement: module docstring, verbatim)
+            'contract_modules': contract_module_docs(spec.get('contracts', [])),
         })
     if selftest is not None:
         cov['mutation_selftest'] = selftest
